@@ -471,8 +471,13 @@ class AdaptiveForceBias(ForceBias):
         """
         try:
             forces_committee = atoms.calc.results[self.forces_variance_keyword]  # type: ignore[try-attr]
-            return np.std(forces_committee, axis=0) / np.mean(
-                np.abs(forces_committee), axis=0
+            spread = np.std(forces_committee, axis=0)
+            magnitude = np.mean(np.abs(forces_committee), axis=0)
+
+            # a coordinate on which every member gives exactly zero force has no spread:
+            # its coefficient is 0, not 0/0 (a nan delta never leaves the rejection loop)
+            return np.divide(
+                spread, magnitude, out=np.zeros_like(spread), where=magnitude != 0
             )
         except (KeyError, AttributeError):
             warn(
